@@ -23,4 +23,20 @@ CHECKS = {
                      "generated values are exactly representable in the on-disk type, so read-back equality is exact",
                      "sampling, not enumeration: geometries / layouts / histories are drawn from the seed"],
     ),
+    "C18": dict(
+        level="exploration",
+        parts=[dict(harness="chk_C18", variant="omp", src="checks/chk_C18.cpp",
+                    runs=dict(quick=4000, thorough=150000), wall_cap=dict(quick=170, thorough=2700))],
+        rule=("one case = one generated plan: scenario (forward / back projection, objective function, lazy geometry tables, "
+              "shared matrix cache, normalisation, scatter), geometry, matrix settings, thread count 2..16 and a seeded schedule "
+              "(PCT(d<=3) / random walk / sync-only / round-robin) executed by the simulator's own OpenMP runtime with every "
+              "instrumented memory access a yield point; compared with the same plan on one thread.  Non-trivial = at least one "
+              "context switch inside a parallel region; distinct = distinct (scenario, decision-trace hash)."),
+        components=dict(real=REAL_COMMON + ["all STIR code inside the parallel regions, compiled with -fopenmp and access instrumentation"],
+                        stub=["libgomp: replaced by simgomp (teams, dynamic chunks, criticals, locks, single, barriers decided by the seeded scheduler)",
+                              "libtsan: not linked; __tsan_* callbacks are yield points (simtsan)"] + STUB_IO),
+        assumptions=["sequentially consistent execution at instrumented-access granularity on an -O1 build: weak-memory and compiler "
+                     "reorderings are not modelled", "no yield points inside uninstrumented shared libraries (libstdc++.so, libc), only at "
+                     "their call boundaries", "sampling of schedules, not enumeration"],
+    ),
 }
